@@ -139,7 +139,7 @@ func gen(r *vh.Rand) string {
 		return genRw(r)
 	case 21:
 		// reload histories go through files and the real loaders (about 80 ms each): few in the quick tier
-		if vh.Thorough || r.Chance(1, 2) {
+		if vh.Thorough || r.Chance(1, 4) {
 			return genLh(r)
 		}
 	}
@@ -184,4 +184,34 @@ func exec(op string) string {
 	return "bad-op"
 }
 
-func main() { vh.Main(gen, exec) }
+// Pre: a deterministic set (independent of VERIF_SEED) of the expensive streams, so that every run — also the quick tier,
+// where the random share of these streams is small — exercises reload histories, raw / segmented hellos, end-to-end rule
+// application and complete handshakes on the same fixed cases.
+func pre(emit func(op string), thorough bool) {
+	r := vh.NewRand(4141)
+	n := 1
+	if thorough {
+		n = 20
+	}
+	for i := 0; i < 8*n; i++ {
+		emit(genLh(r))
+	}
+	for i := 0; i < 60*n; i++ {
+		emit(genRw(r))
+	}
+	for i := 0; i < 20*n; i++ {
+		emit(genEe(r))
+		emit(genRl(r))
+		emit(genCl(r))
+	}
+	for i := 0; i < 6*n; i++ {
+		emit(genEh(r))
+		emit(genHs(r))
+		emit(genCa(r))
+	}
+}
+
+func main() {
+	vh.Pre = pre
+	vh.Main(gen, exec)
+}
